@@ -890,6 +890,9 @@ func baseOf(v ssa.Value) ssa.Value {
 // nilGuarded: some block D dominating blk ends in `if <Exterior of base> ==/!= nil`
 // (or `if base.Empty()`) and blk is only reachable through the non-nil edge.
 func (p *Program) nilGuarded(fn *ssa.Function, blk *ssa.BasicBlock, base ssa.Value, ext *types.Var, emptyM *types.Func, loads map[ssa.Value]ssa.Value) bool {
+	if p.unreachableWhenNil(fn, blk, base, emptyM, loads) {
+		return true
+	}
 	for _, d := range fn.Blocks {
 		if d == blk || !d.Dominates(blk) || len(d.Instrs) == 0 {
 			continue
@@ -1019,9 +1022,79 @@ func describeRet(r *ssa.Return) string {
 	return strings.Join(parts, ",")
 }
 
+// nonNilByCompanion: v = Extract(t, i) of a call to a repository function that
+// returns a nil pointer at index i only together with `false` at a boolean index
+// j, and the use is dominated by the true edge of a test of Extract(t, j).
+func nonNilByCompanion(v ssa.Value, useBlk *ssa.BasicBlock) bool {
+	ex, ok := v.(*ssa.Extract)
+	if !ok || useBlk == nil {
+		return false
+	}
+	call, ok := ex.Tuple.(*ssa.Call)
+	if !ok {
+		return false
+	}
+	sc := call.Call.StaticCallee()
+	if sc == nil || len(sc.Blocks) == 0 {
+		return false
+	}
+	res := sc.Signature.Results()
+	for j := 0; j < res.Len(); j++ {
+		bt, isB := res.At(j).Type().Underlying().(*types.Basic)
+		if !isB || bt.Kind() != types.Bool || j == ex.Index {
+			continue
+		}
+		paired := true
+		for _, b := range sc.Blocks {
+			ret, ok := b.Instrs[len(b.Instrs)-1].(*ssa.Return)
+			if !ok || len(ret.Results) != res.Len() {
+				continue
+			}
+			ri, rj := ret.Results[ex.Index], ret.Results[j]
+			kj, isKj := rj.(*ssa.Const)
+			if isKj && kj.Value != nil && !constant.BoolVal(kj.Value) {
+				continue // companion false: the pointer may be anything
+			}
+			// companion may be true: the pointer must be known non-nil
+			switch y := ri.(type) {
+			case *ssa.Alloc:
+			case *ssa.Call:
+				if c2 := y.Call.StaticCallee(); c2 == nil || !strings.HasPrefix(c2.Name(), "New") {
+					paired = false
+				}
+			default:
+				paired = false
+			}
+		}
+		if !paired {
+			continue
+		}
+		// the use is under `if companion`
+		fn := useBlk.Parent()
+		for _, d := range fn.Blocks {
+			if len(d.Instrs) == 0 || !(d == useBlk || d.Dominates(useBlk)) {
+				continue
+			}
+			iff, ok := d.Instrs[len(d.Instrs)-1].(*ssa.If)
+			if !ok {
+				continue
+			}
+			if ce, ok := iff.Cond.(*ssa.Extract); ok && ce.Tuple == ex.Tuple && ce.Index == j {
+				if t := d.Succs[0]; (t == useBlk || t.Dominates(useBlk)) && len(t.Preds) == 1 {
+					return true
+				}
+			}
+		}
+	}
+	return false
+}
+
 func nonNilObj(v ssa.Value) bool {
 	switch x := v.(type) {
 	case *ssa.MakeInterface:
+		if nonNilByCompanion(x.X, x.Block()) {
+			return true
+		}
 		switch y := x.X.(type) {
 		case *ssa.Alloc:
 			return true
@@ -1328,6 +1401,8 @@ func refLike(t types.Type) bool {
 	return false
 }
 
+var accessorOrigin = map[*ssa.Function]string{}
+
 func originOf(v ssa.Value) string {
 	return originOfD(v, map[ssa.Value]bool{}, 0)
 }
@@ -1392,6 +1467,42 @@ func originOfD(v ssa.Value, seen map[ssa.Value]bool, depth int) string {
 	case *ssa.Alloc, *ssa.MakeSlice, *ssa.MakeClosure:
 		return "fresh"
 	case *ssa.Call:
+		// an accessor of the repository that returns something loaded from its own operands
+		// (func (g *Feature) baseSpatial() Spatial { return g.base.Spatial() }) yields a strictly smaller operand
+		if sc := x.Call.StaticCallee(); sc != nil && len(sc.Blocks) > 0 && depth < 6 {
+			if r, ok := accessorOrigin[sc]; ok {
+				if r == "loaded" {
+					return "loaded"
+				}
+			} else {
+				accessorOrigin[sc] = "param" // recursion guard
+				res := ""
+				for _, b := range sc.Blocks {
+					if ret, ok := b.Instrs[len(b.Instrs)-1].(*ssa.Return); ok {
+						for _, rv := range ret.Results {
+							if !refLike(rv.Type()) {
+								continue
+							}
+							o := originOfD(rv, map[ssa.Value]bool{}, depth+1)
+							switch {
+							case o == "loaded" && (res == "" || res == "loaded"):
+								res = "loaded"
+							case o == "const" || o == "fresh":
+							default:
+								res = "param"
+							}
+						}
+					}
+				}
+				if res == "" {
+					res = "param"
+				}
+				accessorOrigin[sc] = res
+				if res == "loaded" {
+					return "loaded"
+				}
+			}
+		}
 		// an accessor result is as large as what it was computed from
 		o := "const"
 		var ops []ssa.Value
@@ -1530,19 +1641,160 @@ func (p *Program) auditedDescent(caller *ssa.Function, site ssa.CallInstruction)
 				continue
 			}
 			bo, ok := iff.Cond.(*ssa.BinOp)
-			if !ok || bo.Op != token.GEQ {
-				continue
-			}
-			k, ok := bo.Y.(*ssa.Const)
 			if !ok {
 				continue
 			}
-			if cl, ok := bo.X.(*ssa.Call); ok && cl.Call.IsInvoke() && cl.Call.Method.Name() == "NumPoints" && cl.Call.Value == caller.Params[1] {
-				if rectPts < k.Int64() && (d.Succs[0] == site.Block() || d.Succs[0].Dominates(site.Block())) {
-					return true
+			isNP := func(v ssa.Value) bool {
+				cl, ok := v.(*ssa.Call)
+				return ok && cl.Call.IsInvoke() && cl.Call.Method.Name() == "NumPoints" && cl.Call.Value == caller.Params[1]
+			}
+			// normalise to "on edge e, other.NumPoints() >= T"
+			var T int64
+			edgeIdx := -1
+			op := bo.Op
+			var kv *ssa.Const
+			if k, ok := bo.Y.(*ssa.Const); ok && isNP(bo.X) {
+				kv = k
+			} else if k, ok := bo.X.(*ssa.Const); ok && isNP(bo.Y) {
+				kv = k
+				switch op { // K op X  ==  X op' K
+				case token.LSS:
+					op = token.GTR
+				case token.GTR:
+					op = token.LSS
+				case token.LEQ:
+					op = token.GEQ
+				case token.GEQ:
+					op = token.LEQ
 				}
+			}
+			if kv == nil || kv.Value == nil {
+				continue
+			}
+			switch op {
+			case token.GEQ:
+				T, edgeIdx = kv.Int64(), 0
+			case token.GTR:
+				T, edgeIdx = kv.Int64()+1, 0
+			case token.LSS:
+				T, edgeIdx = kv.Int64(), 1
+			case token.LEQ:
+				T, edgeIdx = kv.Int64()+1, 1
+			default:
+				continue
+			}
+			if rectPts < T && (d.Succs[edgeIdx] == site.Block() || d.Succs[edgeIdx].Dominates(site.Block())) {
+				return true
 			}
 		}
 	}
 	return false
+}
+
+// unreachableWhenNil: under the assumption that the Exterior of `base` is nil,
+// is blk unreachable?  Conditions are evaluated in three-valued logic over the
+// SSA values (comparisons of the loaded field with nil, Empty() of the same
+// polygon, negation, phis over the feasible incoming edges), and only feasible
+// edges are followed; iterated to a fixed point.  This sees through named
+// boolean guards, short-circuit conditions and switch-shaped guards alike.
+func (p *Program) unreachableWhenNil(fn *ssa.Function, blk *ssa.BasicBlock, base ssa.Value, emptyM *types.Func, loads map[ssa.Value]ssa.Value) bool {
+	const (
+		unk = 0
+		tru = 1
+		fls = 2
+	)
+	reach := map[*ssa.BasicBlock]bool{fn.Blocks[0]: true}
+	edge := map[[2]*ssa.BasicBlock]bool{}
+	var eval func(v ssa.Value, depth int) int
+	eval = func(v ssa.Value, depth int) int {
+		if depth > 12 {
+			return unk
+		}
+		switch x := v.(type) {
+		case *ssa.Const:
+			if x.Value != nil && x.Value.Kind() == constant.Bool {
+				if constant.BoolVal(x.Value) {
+					return tru
+				}
+				return fls
+			}
+		case *ssa.BinOp:
+			isNilLoad := func(a, b ssa.Value) bool {
+				bb, ok := loads[a]
+				k, isK := b.(*ssa.Const)
+				return ok && bb == base && isK && k.IsNil()
+			}
+			if isNilLoad(x.X, x.Y) || isNilLoad(x.Y, x.X) {
+				if x.Op == token.EQL {
+					return tru
+				}
+				if x.Op == token.NEQ {
+					return fls
+				}
+			}
+		case *ssa.UnOp:
+			if x.Op == token.NOT {
+				switch eval(x.X, depth+1) {
+				case tru:
+					return fls
+				case fls:
+					return tru
+				}
+			}
+		case *ssa.Call:
+			if sc := x.Call.StaticCallee(); sc != nil && emptyM != nil && sc.Object() == emptyM && len(x.Call.Args) > 0 && baseOf(x.Call.Args[0]) == base {
+				return tru // a polygon without an exterior is empty
+			}
+		case *ssa.Phi:
+			res := -1
+			for i, e := range x.Edges {
+				if !edge[[2]*ssa.BasicBlock{x.Block().Preds[i], x.Block()}] {
+					continue
+				}
+				ev := eval(e, depth+1)
+				if res == -1 {
+					res = ev
+				} else if res != ev {
+					return unk
+				}
+			}
+			if res == -1 {
+				return unk
+			}
+			return res
+		}
+		return unk
+	}
+	for iter := 0; iter < 64; iter++ {
+		changed := false
+		for _, b := range fn.Blocks {
+			if !reach[b] || len(b.Instrs) == 0 {
+				continue
+			}
+			succs := b.Succs
+			if iff, ok := b.Instrs[len(b.Instrs)-1].(*ssa.If); ok && len(b.Succs) == 2 {
+				switch eval(iff.Cond, 0) {
+				case tru:
+					succs = b.Succs[:1]
+				case fls:
+					succs = b.Succs[1:]
+				}
+			}
+			for _, s := range succs {
+				k := [2]*ssa.BasicBlock{b, s}
+				if !edge[k] {
+					edge[k] = true
+					changed = true
+				}
+				if !reach[s] {
+					reach[s] = true
+					changed = true
+				}
+			}
+		}
+		if !changed {
+			break
+		}
+	}
+	return !reach[blk]
 }
